@@ -120,8 +120,8 @@ def gen_planet(d: Draw, lifetime=False):
         if i == nl - 1 and t == 'liquid' and not d.chance(1, 3):
             t = 'solid'                       # a liquid surface layer stays in the mix, but rarer
         mat = dict(d.pick(LAYER_MATERIALS[t]))
-        n = d.weighted([(d.between(5, 12), 6), (d.between(13, 60), 3), (d.between(1, 3), 1)]) if not lifetime else 1200
-        layers.append(dict(type=t, static=d.chance(1, 2), incompressible=d.chance(1, 6), n=n, **mat))
+        n = d.weighted([(d.between(5, 12), 18), (d.between(13, 60), 9), (d.between(1, 3), 1)]) if not lifetime else 1200
+        layers.append(dict(type=t, static=d.chance(1, 2), incompressible=d.chance(1, 10), n=n, **mat))
     spec = {'radius': d.pick([1.0e6, 6.0e6, 2.5e7]), 'layers': layers,
             'frequency': d.pick([1.0e-6, 7.27e-5, 4.1e-5, 1.0e-3]),
             'r0_frac': d.weighted([(1.0e-3, 80), (1.0e-5, 19), (0.0, 1)])}
